@@ -15,6 +15,7 @@ import (
 	"errors"
 	"fmt"
 	"math/rand"
+	"os"
 	"sort"
 	"strings"
 	"testing"
@@ -303,7 +304,11 @@ func newSession(f *fixture, sc Scenario) *session {
 				certs[j] = s.cert
 				chunkToModel[s.cert.ChunkID] = c.ID
 			}
-			blk, err = dsmr.NewBlockVerif(dsmr.BlockHeader{ParentID: p.GetID(), Height: b.Height, Timestamp: b.Ts}, certs)
+			// explicit ids: BuildBlock's id derivation covers the certificates only, so blocks
+			// re-including the same certificates would collide in the chain index
+			bid := toID(b.ID)
+			bid[0] = 0xb7
+			blk, err = dsmr.NewBlockWithIDVerif(dsmr.BlockHeader{ParentID: p.GetID(), Height: b.Height, Timestamp: b.Ts}, certs, bid)
 			if err != nil {
 				panic(err)
 			}
@@ -635,6 +640,10 @@ func gen(f *fixture, r *rand.Rand) (Scenario, []Out) {
 	var outs []Out
 	push := func(op Op) Out {
 		sc.Ops = append(sc.Ops, op)
+		if dbg := os.Getenv("VERIF_DEBUG_FILE"); dbg != "" {
+			raw, _ := json.Marshal(sc)
+			_ = os.WriteFile(dbg, raw, 0o644)
+		}
 		o := sess.apply(op)
 		outs = append(outs, o)
 		return o
